@@ -305,6 +305,27 @@ func Menu() []Tmpl {
 			amt := new(big.Int).Add(b.R.App.State.GetBalance(*c), replica.Dna(2))
 			return b.Tx(Spec{From: X1, To: c, Type: types.CallContractTx, Amount: replica.Dna(2), Payload: CallPayload("transfer", A(Z).Bytes(), amt.Bytes()), MaxFee: replica.Dna(20)})
 		}},
+		{"call contract0 transfer->itself 1 by owner X1", func(b *B) *types.Transaction {
+			c := b.Contract(0)
+			if c == nil {
+				return nil
+			}
+			return b.Tx(Spec{From: X1, To: c, Type: types.CallContractTx, Payload: CallPayload("transfer", c.Bytes(), replica.Dna(1).Bytes()), MaxFee: replica.Dna(20)})
+		}},
+		{"call contract0 transfer->itself balance by owner X1", func(b *B) *types.Transaction {
+			c := b.Contract(0)
+			if c == nil {
+				return nil
+			}
+			return b.Tx(Spec{From: X1, To: c, Type: types.CallContractTx, Payload: CallPayload("transfer", c.Bytes(), b.R.App.State.GetBalance(*c).Bytes()), MaxFee: replica.Dna(20)})
+		}},
+		{"call contract0 transfer->owner X1 balance by owner X1", func(b *B) *types.Transaction {
+			c := b.Contract(0)
+			if c == nil {
+				return nil
+			}
+			return b.Tx(Spec{From: X1, To: c, Type: types.CallContractTx, Payload: CallPayload("transfer", A(X1).Bytes(), b.R.App.State.GetBalance(*c).Bytes()), MaxFee: replica.Dna(20)})
+		}},
 		{"call contract0 transfer by X2 (not owner)", func(b *B) *types.Transaction {
 			c := b.Contract(0)
 			if c == nil {
